@@ -114,65 +114,144 @@ theorem lpm_once {t : Tid} {i : Nat} {x : α} (h : step s t = some s') :
 
 /-! ## C06  errors at the right position -/
 
-/-- C06. With a non-failing source, an error exit delivers every result before the first failing
-    item (all `.ok`), and the exception that comes out is exactly that item's exception. -/
+/-- if `map f l` is all `.ok`, the `.ok` values are `filterMap` of `f` over `l` -/
+theorem eq_filterMap_of_map_ok {l : List α} {d : List β} (h : l.map f = d.map Except.ok) :
+    d = l.filterMap (fun x => (f x).toOption) := by
+  induction l generalizing d with
+  | nil => cases d <;> simp_all
+  | cons x l ih =>
+    cases d with
+    | nil => simp at h
+    | cons v d =>
+      simp only [List.map_cons, List.cons.injEq] at h
+      have hd := ih h.2
+      have hx : (f x).toOption = some v := by rw [h.1]; rfl
+      rw [List.filterMap_cons, hx, ← hd]
+
+/-- C06. An error exit (`done (some e) false`, no `close` involved), whatever the source does:
+    the delivered results are `f` of the first `k` source items, all `.ok` (so `k` items is the
+    longest all-ok prefix that was submitted), and
+    * either item `k` is the FIRST failing item and `e` is exactly its exception,
+    * or no item fails at all: the source itself raised `e` after its last item
+      (`ending = some e`), and EVERY item of the source was delivered before `e` came out
+      (F17 is gone: nothing that was queued when the source raised is dropped). -/
 theorem lpm_error_position {e : ε} (h : Reachable w b ek tk f src₀ ending s)
+    (hc : s.c = .done (some e) false) :
+    ∃ k, k = s.delivered.length ∧ (src₀.take k).map f = s.delivered.map Except.ok ∧
+      (src₀[k]?.map f = some (.error e) ∨
+       (ending = some e ∧ k = src₀.length ∧ s.pulled = src₀.length ∧
+        src₀.map f = s.delivered.map Except.ok ∧
+        s.delivered = src₀.filterMap (fun x => (f x).toOption))) := by
+  have hI := inv_reachable h
+  have hph := hI.phase
+  simp only [PhaseInv, hc, ExitInv] at hph
+  refine ⟨_, rfl, hI.deliv, ?_⟩
+  rcases hph.1.2.2 trivial with ⟨he, hsrc, hlen⟩ | he
+  · have hall : src₀.map f = s.delivered.map Except.ok := by
+      have := hI.deliv
+      rwa [hlen, List.take_length] at this
+    have := hI.srcLen
+    exact .inr ⟨he, hlen, by simpa [hsrc] using this, hall, eq_filterMap_of_map_ok hall⟩
+  · exact .inl he
+
+/-- C06, the statement for a non-failing source (the form `lpm_error_position` had before the
+    source-error repair): every result before the first failing item is delivered (all `.ok`), and
+    the exception that comes out is exactly that item's exception. -/
+theorem lpm_error_position_total_source {e : ε} (h : Reachable w b ek tk f src₀ ending s)
     (hc : s.c = .done (some e) false) (hend : ending = none) :
     ∃ k, k = s.delivered.length ∧ (src₀.take k).map f = s.delivered.map Except.ok ∧
       src₀[k]?.map f = some (.error e) := by
-  have hI := inv_reachable h
-  have hph := hI.phase
-  simp only [PhaseInv, hc, ExitInv] at hph
-  refine ⟨_, rfl, hI.deliv, ?_⟩
-  rcases hph.1.2.2 trivial with ⟨he, _⟩ | he
+  obtain ⟨k, hk, hd, he | ⟨he, _⟩⟩ := lpm_error_position h hc
+  · exact ⟨k, hk, hd, he⟩
   · rw [hend] at he; cases he
-  · exact he
 
-/-- C06 (known defect F17, precise form). When the *source* raises `e'`, the exception that comes
-    out is either the source's (then the whole source was consumed) or the `f`-error of the item
-    at position `delivered.length`.  In both cases the delivered results are a correct prefix, but
-    in the first case NOT necessarily all results computed before the failure: see
-    `lpm_source_error_drops_counterexample`. -/
-theorem lpm_source_error_partial {e e' : ε} (h : Reachable w b ek tk f src₀ ending s)
+/-- C06. If some source item fails, then — whether or not the source itself raises afterwards — the
+    exception that comes out is the one of the FIRST failing item, after exactly the results of
+    the items before it. -/
+theorem lpm_error_first_failure {e : ε} (h : Reachable w b ek tk f src₀ ending s)
+    (hc : s.c = .done (some e) false) (hfail : ∃ x ∈ src₀, ∃ e', f x = .error e') :
+    ∃ k, k = s.delivered.length ∧ (src₀.take k).map f = s.delivered.map Except.ok ∧
+      src₀[k]?.map f = some (.error e) := by
+  obtain ⟨k, hk, hd, he | ⟨_, _, _, hall, _⟩⟩ := lpm_error_position h hc
+  · exact ⟨k, hk, hd, he⟩
+  · obtain ⟨x, hx, e', hfx⟩ := hfail
+    have : f x ∈ s.delivered.map Except.ok := hall ▸ List.mem_map_of_mem hx
+    rw [hfx] at this
+    simp at this
+
+/-- C06 (F17 repaired). When no item fails and the generator nevertheless ends with the exception
+    `e`, then `e` is the source's exception and ALL results were delivered before it, in order:
+    the results that were queued when the source raised are drained, not dropped. -/
+theorem lpm_source_error_delivers_all {e : ε} (h : Reachable w b ek tk f src₀ ending s)
+    (hc : s.c = .done (some e) false) (hok : ∀ x ∈ src₀, ∃ v, f x = .ok v) :
+    ending = some e ∧ s.delivered = src₀.filterMap (fun x => (f x).toOption) ∧
+      src₀.map f = s.delivered.map Except.ok ∧ s.delivered.length = src₀.length := by
+  obtain ⟨k, hk, _, he | ⟨he, hlen, _, hall, hfm⟩⟩ := lpm_error_position h hc
+  · exfalso
+    cases hx : src₀[k]? with
+    | none => simp [hx] at he
+    | some x =>
+      obtain ⟨v, hv⟩ := hok x (List.mem_of_getElem? hx)
+      simp [hx, hv] at he
+  · exact ⟨he, hfm, hall, by omega⟩
+
+/-- C06 (F17 repaired), with the source's exception named: when the source raises `e'` after its
+    last item, an error exit either reports the first failing item (exactly as without a source
+    error), or it reports `e'` — and then every item of the source was delivered before. -/
+theorem lpm_source_error_position {e e' : ε} (h : Reachable w b ek tk f src₀ ending s)
     (hc : s.c = .done (some e) false) (hend : ending = some e') :
     ∃ k, k = s.delivered.length ∧ (src₀.take k).map f = s.delivered.map Except.ok ∧
-      ((e = e' ∧ s.src = [] ∧ s.pulled = src₀.length) ∨ src₀[k]?.map f = some (.error e)) := by
-  have hI := inv_reachable h
-  have hph := hI.phase
-  simp only [PhaseInv, hc, ExitInv] at hph
-  refine ⟨_, rfl, hI.deliv, ?_⟩
-  rcases hph.1.2.2 trivial with ⟨he, hsrc⟩ | he
+      ((e = e' ∧ k = src₀.length ∧ s.delivered = src₀.filterMap (fun x => (f x).toOption)) ∨
+       src₀[k]?.map f = some (.error e)) := by
+  obtain ⟨k, hk, hd, he | ⟨he, hlen, _, _, hfm⟩⟩ := lpm_error_position h hc
+  · exact ⟨k, hk, hd, .inr he⟩
   · rw [hend] at he; injection he with he
-    have := hI.srcLen
-    exact .inl ⟨he.symm, hsrc, by simpa [hsrc] using this⟩
-  · exact .inr he
+    exact ⟨k, hk, hd, .inl ⟨he.symm, hlen, hfm⟩⟩
 
-/-- C06 (known defect F17). `w = 1, b = 2`, source `[1, 2]` then raises `7`, `f = .ok`:
-    both futures finished successfully, yet nothing is delivered — buffered results are dropped
-    when the source raises. -/
-theorem lpm_source_error_drops_counterexample :
-    ∃ s : St Nat Nat Nat,
-      Reachable 1 2 .waitAll .cancelQueued (fun x => .ok x) [1, 2] (some 7) s ∧
-      s.c = .done (some 7) false ∧ s.delivered = [] ∧
-      s.futs = [(1, .done (.ok 1)), (2, .done (.ok 2))] :=
-  ⟨_, .of_run [.consumer, .consumer, .consumer, .consumer, .start, .finish 0, .start, .finish 1,
-               .consumer, .consumer] rfl, rfl, rfl, rfl⟩
+/-- C06, non-vacuity of `lpm_source_error_delivers_all` (the schedule that showed F17, now with
+    the good outcome). `w = 1, b = 2`, source `[1, 2, 3]` then raises `7`, `f = .ok`.
+    In `s₀` the source has just raised: one result is delivered, futures 1 and 2 are finished and
+    still queued.  The generator then drains the queue (two `yield`s, each resumed), re-raises `7`
+    and leaves the executor: in `s` all three results were delivered before the error. -/
+theorem lpm_source_error_example :
+    ∃ s₀ s : St Nat Nat Nat,
+      Reachable 1 2 .waitAll .cancelQueued (fun x => .ok x) [1, 2, 3] (some 7) s₀ ∧
+      s₀.c = .drainErr 7 ∧ s₀.delivered = [1] ∧ s₀.q = [1, 2] ∧
+      s₀.futs = [(1, .done (.ok 1)), (2, .done (.ok 2)), (3, .done (.ok 3))] ∧
+      run s₀ [.consumer, .resume, .consumer, .resume, .consumer, .consumer] = some s ∧
+      Reachable 1 2 .waitAll .cancelQueued (fun x => .ok x) [1, 2, 3] (some 7) s ∧
+      s.c = .done (some 7) false ∧ s.delivered = [1, 2, 3] ∧ s.q = [] ∧
+      s.futs = [(1, .done (.ok 1)), (2, .done (.ok 2)), (3, .done (.ok 3))] :=
+  ⟨_, _, .of_run [.consumer, .consumer, .consumer, .consumer, .consumer, .start, .finish 0, .consumer,
+                  .resume, .consumer, .start, .finish 1, .start, .finish 2, .consumer] rfl,
+   rfl, rfl, rfl, rfl, rfl,
+   .of_run [.consumer, .consumer, .consumer, .consumer, .consumer, .start, .finish 0, .consumer,
+            .resume, .consumer, .start, .finish 1, .start, .finish 2, .consumer,
+            .consumer, .resume, .consumer, .resume, .consumer, .consumer] rfl,
+   rfl, rfl, rfl, rfl⟩
 
 /-! ## C05  clean stop -/
 
-/-- C05. No deadlock: unless the generator is suspended at a `yield` or has finished, some thread
+/-- C05. No deadlock: unless the generator is suspended at a `yield` (`.yielded`: main loop and
+    normal drain; `.yieldedErr`: the drain after a source error) or has finished, some thread
     of the system (consumer, pool start, some pool finish) can move.  (`w ≤ b` is only used
     through `1 ≤ b`.) -/
 theorem lpm_no_deadlock (hw : 1 ≤ w) (hwb : w ≤ b) (h : Reachable w b ek tk f src₀ ending s)
-    (hnd : isDone s = false) (hny : ∀ x, s.c ≠ .yielded x) :
+    (hnd : isDone s = false) (hny : ∀ x, s.c ≠ .yielded x) (hnye : ∀ e, s.c ≠ .yieldedErr e) :
     (∃ s', step s .consumer = some s') ∨ (∃ s', step s .start = some s') ∨
       (∃ i s', step s (.finish i) = some s') :=
-  no_deadlock_inv (inv_reachable h) hw (by omega) hnd hny
+  no_deadlock_inv (inv_reachable h) hw (by omega) hnd hny hnye
 
 /-- C05. At a `yield` the environment can both resume and close the generator. -/
 theorem lpm_yield_enabled {x : Option α} (hc : s.c = .yielded x) :
     (∃ s', step s .resume = some s') ∧ (∃ s', step s .close = some s') := by
   cases x <;> simp [step, hc]
+
+/-- C05. The same at a `yield` of the error drain (the source raised, queued results are being
+    delivered): the environment can both resume and close the generator. -/
+theorem lpm_yieldErr_enabled {e : ε} (hc : s.c = .yieldedErr e) :
+    (∃ s', step s .resume = some s') ∧ (∃ s', step s .close = some s') := by
+  simp [step, hc]
 
 /-- C05. Termination: the `Nat` measure `mu` (8·remaining source items + 6·held item +
     2·pending + 1·running + 3·|q| + program-point rank) strictly decreases on every step of every
@@ -394,12 +473,32 @@ example : ∃ s : St Nat Nat Nat,
   ⟨_, .of_run [consumer, consumer, consumer, start, finish 0, consumer, resume, consumer, consumer,
                start, finish 1, consumer, consumer] rfl, rfl, rfl⟩
 
-/-- `lpm_source_error_partial`: the state of `lpm_source_error_drops_counterexample`. -/
+/-- `lpm_error_position`, `lpm_source_error_delivers_all`, `lpm_source_error_position`: the source
+    `[1, 2]` raises `7` while both results are queued; both are delivered, then `7` comes out. -/
 example : ∃ s : St Nat Nat Nat,
     Reachable 1 2 .waitAll .cancelQueued (fun x => .ok x) [1, 2] (some 7) s ∧
-    s.c = .done (some 7) false ∧ s.src = [] ∧ s.pulled = 2 :=
+    s.c = .done (some 7) false ∧ s.src = [] ∧ s.pulled = 2 ∧ s.delivered = [1, 2] :=
   ⟨_, .of_run [consumer, consumer, consumer, consumer, start, finish 0, start, finish 1,
-               consumer, consumer] rfl, rfl, rfl, rfl⟩
+               consumer, consumer, resume, consumer, resume, consumer, consumer] rfl, rfl, rfl, rfl, rfl⟩
+
+/-- `lpm_error_first_failure`, `lpm_source_error_position`: the source `[1, 2]` raises `7`, but the
+    queued result of item 2 fails with `9`: `[f 1]` is delivered, then `9` (not `7`) comes out —
+    exactly as in the normal drain loop. -/
+example : ∃ s : St Nat Nat Nat,
+    Reachable 1 2 .waitAll .cancelQueued (fun x => if x = 2 then .error 9 else .ok x) [1, 2] (some 7) s ∧
+    s.c = .done (some 9) false ∧ s.delivered = [1] :=
+  ⟨_, .of_run [consumer, consumer, consumer, consumer, start, finish 0, start, finish 1,
+               consumer, consumer, resume, consumer, consumer] rfl, rfl, rfl⟩
+
+/-- `lpm_yieldErr_enabled`, `lpm_close_terminates_pool`: a `close()` at a `yield` of the error drain
+    cancels as usual (future 1 was still pending and queued: it is cancelled; no exception). -/
+example : ∃ s₀ s : St Nat Nat Nat,
+    Reachable 1 2 .waitAll .cancelQueued (fun x => .ok x) [1, 2] (some 7) s₀ ∧
+    s₀.c = .yieldedErr 7 ∧ s₀.delivered = [1] ∧
+    run s₀ [close, consumer, consumer, consumer] = some s ∧
+    s.c = .done none true ∧ s.futs = [(1, .done (.ok 1)), (2, .cancelled)] :=
+  ⟨_, _, .of_run [consumer, consumer, consumer, consumer, start, finish 0, consumer, consumer] rfl,
+   rfl, rfl, rfl, rfl, rfl⟩
 
 /-- `lpm_no_deadlock`: the consumer waits for the head of `q` (it cannot move), the pool can. -/
 example : ∃ s s' : St Nat Nat Nat,
